@@ -255,6 +255,9 @@ func (w *brWorld) itemOf(b *types.Block) brItem {
 }
 
 func forgedBlock(b *types.Block) bool {
+	if b == nil {
+		return false
+	}
 	return len(b.GetHash()) != 0 && (b.GetHeader() == nil || !bytes.Equal(b.GetHash(), digestOf(b.GetHeader())))
 }
 
@@ -649,6 +652,9 @@ func (n *brNode) step(a *brAct, src, dst *brState) (kind, text string, got brSta
 	}
 	if obs.rsp != nil && obs.rsp.Err == nil {
 		for i, b := range obs.rsp.Blocks {
+			if b == nil || b.GetHeader() == nil {
+				return "nil-block-forwarded", fmt.Sprintf("the chunk receiver answered the syncer without error but block %d of %d is missing", i+1, len(obs.rsp.Blocks)), got
+			}
 			if i < len(n.req) && (forgedBlock(b) || !bytes.Equal(digestOf(b.GetHeader()), n.w.id[n.req[i]])) {
 				it := n.w.itemOf(b)
 				k := "forged-forwarded"
